@@ -145,7 +145,8 @@ def _one(c, r):
         cl = classes[int(rng.integers(64))]
         lo = [ivs[a][cl[a]][0] + off[a] for a in range(3)]
         hi = [ivs[a][cl[a]][1] + off[a] for a in range(3)]
-        comps = [["Ex", "Hz"], ["Ey", "Ez", "Hx"], None, ["Hy"]][j]
+        # subsets are listed in and out of the fixed Ex..Hz order; the record slots keep the fixed order
+        comps = [["Hz", "Ex"], ["Ey", "Ez", "Hx"], None, ["Hy"]][j] if rng.random() < 0.5 else [["Ex", "Hz"], ["Hx", "Ey", "Ez"], None, ["Hy"]][j]
         d = {"kind": "field", "name": f"r{j}", "lo": lo, "hi": hi, "exact": bool(j % 2)}
         if comps:
             d["components"] = comps
@@ -198,7 +199,7 @@ def _one(c, r):
                 Ec, Hc = Es[t], Hs[t]
             full6 = np.concatenate([Ec, Hc])[:, gs[0], gs[1], gs[2]]
             if comps:
-                full6 = full6[[names6.index(x) for x in comps]]
+                full6 = full6[sorted(names6.index(x) for x in comps)]
             want = full6
             got = rows[t]
             if not np.iscomplexobj(got):
